@@ -247,6 +247,12 @@ impl<M: GuestAddressSpace> VringState<M> {
 
     /// Read event from the kick `EventFd`.
     fn read_kick(&self) -> io::Result<bool> {
+        // A kick that races with the vring being disabled must stay pending in the eventfd, so
+        // that it is delivered when the vring gets enabled again instead of being lost.
+        if !self.enabled {
+            return Ok(false);
+        }
+
         if let Some(kick) = &self.kick {
             #[cfg(feature = "verif-hooks")]
             vhost::verif::wait_readable(
